@@ -189,6 +189,11 @@ def main():
             [[0.0], 1.0 + 0.02 * rng.randn(n - 1)])     # optical gap
         relax = (s % 3) != 0
         rwa = bool(rng.rand() < 0.5)
+        # every fourth sample: a complex Hermitian Hamiltonian
+        cplx = (s % 4) == 3
+        if cplx:
+            Ai = rng.randn(n, n) * 0.05
+            H = H + 1j * (Ai - Ai.T) / 2
         if rwa:
             # the rotating frame is exact only when the blocks are not
             # coupled (as in aggregate Hamiltonians)
@@ -228,9 +233,14 @@ def main():
             gam = (g0 + g0.T) / 2
             numpy.fill_diagonal(gam, 0.0)
         rp = dict(kind="sampled", seed=ck.seed, sample=s, n=n, order=order,
-                  rwa=rwa, relax=relax, form=form, pdeph=pdeph, Nt=Nt, dt=dt)
+                  rwa=rwa, relax=relax, form=form, pdeph=pdeph, Nt=Nt, dt=dt,
+                  complex_H=bool(cplx))
         with ck.guarded("sampled", "propagate", rp, rp):
-            ta = qr.TimeAxis(0.0, Nt, dt)
+            # (the axis need not start at zero)
+            # (with the rotating frame the start stays at zero: the frame
+            # transformation refers to absolute time)
+            t0 = 0.0 if rwa else float((0.0, 3.5, -2.0)[s % 3]) * dt * 4
+            ta = qr.TimeAxis(t0, Nt, dt)
             ham = qr.Hamiltonian(data=H.copy())
             if rwa:
                 ham.set_rwa([0, 1])
@@ -263,8 +273,8 @@ def main():
                 if pdeph:
                     bound += (Nt - 1) * nref * g * float(gam.max()) * h * h
                 ref = numpy.array([
-                    scipy.linalg.expm(Lm * t).dot(rho0.reshape(n * n)
-                                                  ).reshape(n, n)
+                    scipy.linalg.expm(Lm * (t - ta.data[0])).dot(
+                        rho0.reshape(n * n)).reshape(n, n)
                     for t in ta.data])
                 err = float(numpy.abs(d - ref).max())
                 mineig = float(min(numpy.linalg.eigvalsh(
@@ -304,7 +314,7 @@ def main():
             with contextlib.redirect_stdout(io.StringIO()):
                 evr = prop.propagate(qr.ReducedDensityMatrix(
                     data=rho0.copy()), method="short-exp-%d" % order)
-            taf = qr.TimeAxis(0.0, (Nt - 1) * kref + 1, dt / kref)
+            taf = qr.TimeAxis(t0, (Nt - 1) * kref + 1, dt / kref)
             hamf = qr.Hamiltonian(data=H.copy())
             if rwa:
                 hamf.set_rwa([0, 1])
